@@ -37,13 +37,28 @@ def sides(s, knee_points, expected):
 
 
 def match_errors(a, b):
-    """nearest neighbour (Euclidean, first on ties) of every point of a in b -> list of (p, q)"""
+    """every point of a with *all* its nearest neighbours in b (Euclidean; exact ties and ties up to rounding: the statement does not
+    say which of several equally near points is matched) -> list of (p, [q, ...])"""
     out = []
     for p in a:
         d = [(F(float(p[0])) - F(float(q[0]))) ** 2 + (F(float(p[1])) - F(float(q[1]))) ** 2 for q in b]
-        j = min(range(len(d)), key=lambda i: (d[i], i))
-        out.append((p, b[j]))
+        m = min(d)
+        out.append((p, [b[i] for i in range(len(b)) if d[i] <= m * (1 + F(1, 10 ** 9)) + F(1, 10 ** 24)]))
     return out
+
+
+def error_range(pairs, power, n):
+    """smallest and largest value of the mean per-coordinate error over the admissible choices of nearest neighbours"""
+    lo = hi = F(0)
+    for p, qs in pairs:
+        vals = [sum(abs(F(float(p[c])) - F(float(q[c]))) ** power for c in (0, 1)) for q in qs]
+        lo += min(vals)
+        hi += max(vals)
+    return float(lo / (2 * n)), float(hi / (2 * n))
+
+
+def within(g, lo, hi):
+    return close(g, lo) or close(g, hi) or lo <= g <= hi
 
 
 def close(a, b):
@@ -84,17 +99,21 @@ def check(H, name, pts, knees, expected, t):
     for s in ev.Strategy:
         a, b = sides(s, kp, [list(e) for e in expected])
         pairs = match_errors(a, b)
-        w_mae = float(sum(abs(F(float(p[c])) - F(float(q[c]))) for p, q in pairs for c in (0, 1)) / (2 * len(a)))
-        w_mse = float(sum((F(float(p[c])) - F(float(q[c]))) ** 2 for p, q in pairs for c in (0, 1)) / (2 * len(a)))
+        w_mae, w_mse = error_range(pairs, 1, len(a)), error_range(pairs, 2, len(a))
         g_mae, g_mse, g_rmse = float(ev.mae(P, K, E, s)), float(ev.mse(P, K, E, s)), float(ev.rmse(P, K, E, s))
-        if not (close(g_mae, w_mae) and close(g_mse, w_mse) and close(g_rmse, math.sqrt(w_mse)) and g_mae >= 0 and g_mse >= 0):
-            H.violation("strategy %s: mae=%r mse=%r rmse=%r, nearest-neighbour matching from the selected side gives mae=%r mse=%r" % (s, g_mae, g_mse, g_rmse, w_mae, w_mse), inp, clause="errors")
+        if not (within(g_mae, *w_mae) and within(g_mse, *w_mse) and close(g_rmse, math.sqrt(g_mse)) and g_mae >= 0 and g_mse >= 0):
+            H.violation("strategy %s: mae=%r mse=%r rmse=%r, nearest-neighbour matching from the selected side gives mae in %r mse in %r" % (s, g_mae, g_mse, g_rmse, w_mae, w_mse), inp, clause="errors")
             return
         if all(F(float(p[c])) + F(1, 10 ** 16) != 0 for p, _ in pairs for c in (0, 1)):
-            w = math.sqrt(float(sum(((F(float(p[c])) - F(float(q[c]))) / (F(float(p[c])) + F(1, 10 ** 16))) ** 2 for p, q in pairs for c in (0, 1)) / (2 * len(a))))
+            lo = hi = F(0)
+            for p, qs in pairs:
+                vals = [sum(((F(float(p[c])) - F(float(q[c]))) / (F(float(p[c])) + F(1, 10 ** 16))) ** 2 for c in (0, 1)) for q in qs]
+                lo += min(vals)
+                hi += max(vals)
+            w = (math.sqrt(float(lo / (2 * len(a)))), math.sqrt(float(hi / (2 * len(a)))))
             g = float(ev.rmspe(P, K, E, s))
-            if not close(g, w) or g < 0:
-                H.violation("strategy %s: rmspe=%r, expected %r" % (s, g, w), inp, clause="rmspe")
+            if not within(g, *w) or g < 0:
+                H.violation("strategy %s: rmspe=%r, expected in %r" % (s, g, w), inp, clause="rmspe")
                 return
     if not (np.array_equal(before[0], P) and np.array_equal(before[1], K) and np.array_equal(before[2], E)):
         H.violation("an evaluation function modified its arguments", inp, clause="frame")
